@@ -84,7 +84,7 @@ func c07(tier string) []*explore.Scenario {
 	}
 	// deadline expiry while blocked at each position of the ping-pong
 	for j := 0; j <= 2; j++ {
-		out = append(out, c07Deadline(j, bound))
+		out = append(out, c07Deadline(j, bound, false), c07Deadline(j, bound, true))
 	}
 	return out
 }
@@ -340,10 +340,12 @@ func c07Unread(m, read int, other bool, bound int) *explore.Scenario {
 }
 
 // c07Deadline: the caller's deadline expires while it is blocked after j rounds.
-func c07Deadline(j, bound int) *explore.Scenario {
+// deafHandler: the handler does not watch its context after the rounds, so the
+// server never finishes the stream by itself and only the caller's deadline acts.
+func c07Deadline(j, bound int, deafHandler bool) *explore.Scenario {
 	fam := "C07/deadline"
 	return &explore.Scenario{
-		Name:   fmt.Sprintf("C07/deadline/rounds=%d", j),
+		Name:   fmt.Sprintf("C07/deadline/rounds=%d/deaf=%v", j, deafHandler),
 		Family: fam, Prop: "C07", Bound: bound, Horizon: time.Hour,
 		Run: func() {
 			w := env.NewWorld()
@@ -352,6 +354,22 @@ func c07Deadline(j, bound int) *explore.Scenario {
 			vsched.Explore(true)
 			r := w.Rec("s", "Bidi")
 			w.Handlers["s"] = env.HEcho
+			release := make(chan struct{})
+			if deafHandler {
+				w.Handlers["s"] = func(r *env.Rec, ss grpc.ServerStream) error {
+					for i := 0; i < j; i++ {
+						m := new(env.Msg)
+						if err := ss.RecvMsg(m); err != nil {
+							return err
+						}
+						if err := ss.SendMsg(env.S("e:" + string(m.Value))); err != nil {
+							return err
+						}
+					}
+					<-release
+					return nil
+				}
+			}
 			ctx, cancel := context.WithTimeout(context.Background(), 100*time.Millisecond)
 			defer cancel()
 			start := time.Now()
@@ -383,11 +401,21 @@ func c07Deadline(j, bound int) *explore.Scenario {
 			}
 			// the blocked receive itself must have returned the deadline status
 			if done && len(log) > 2*j {
-				if o := log[2*j]; status.Code(o.err) != codes.DeadlineExceeded {
+				if o := log[2*j]; status.Code(o.err) != codes.DeadlineExceeded && !(serverTrailerSeen(d, id) && o.err != nil) {
 					vsched.Fail(fam+"|pending-recv", "the RecvMsg pending when the deadline expired returned %s", env.ErrStr(o.err))
 				}
 			}
 			c07Check(fam, r, log, done, false, d, id, true)
+			if deafHandler {
+				if serverTrailerSeen(d, id) {
+					vsched.Fail(fam+"|harness", "deaf handler finished by itself")
+				}
+				if r.HStarts > 0 && !vctx.IsDone(r.HCtx) {
+					vsched.Fail(fam+"|handler-ctx-live", "the caller's deadline expired but the handler's context is still live")
+				}
+				close(release)
+				vsched.Quiesce()
+			}
 			finishDirect(d, w, true)
 		},
 	}
